@@ -521,7 +521,7 @@ pub fn check(mut ctx: Ctx, replay: Option<J>) -> ! {
   };
   let results = {
     let recs = &recs;
-    crate::child::run_in_children_with("c12", &tlc.work_dir, recs.len(), 14, Duration::from_secs(30), &|i| input_of(&recs[i]))
+    crate::child::run_in_children_with("c12", &tlc.work_dir, recs.len(), 14, Duration::from_secs(90), &|i| input_of(&recs[i]))
   };
   let mut calls = 0u64;
   // documents given up after the death budget of the child runner was spent are not judged
@@ -565,7 +565,7 @@ pub fn check(mut ctx: Ctx, replay: Option<J>) -> ! {
         owner.push((*i, name.as_str().unwrap_or("").to_string()));
       }
     }
-    let sub = run_in_children("c12", &tlc.work_dir, &sub_inputs, 14, Duration::from_secs(30));
+    let sub = run_in_children("c12", &tlc.work_dir, &sub_inputs, 14, Duration::from_secs(90));
     for ((i, who), res) in owner.iter().zip(sub.iter()) {
       if res["death"].is_string() {
         let list = recs[*i]["killers"].as_array().cloned().unwrap_or_default();
